@@ -146,7 +146,15 @@ func marshalUnknownValue(rng cty.ValueRange, path cty.Path, enc *msgpack.Encoder
 	return nil
 }
 
-func unmarshalUnknownValue(dec *msgpack.Decoder, ty cty.Type, path cty.Path) (cty.Value, error) {
+func unmarshalUnknownValue(dec *msgpack.Decoder, ty cty.Type, path cty.Path) (ret cty.Value, err error) {
+	defer func() {
+		// The refinement builder panics when given inconsistent refinements,
+		// which for us means the input was invalid.
+		if r := recover(); r != nil {
+			ret = cty.DynamicVal
+			err = path.NewErrorf("invalid unknown value refinements: %v", r)
+		}
+	}()
 	// The next item in the stream should be a msgpack extension value,
 	// which might be zero-length for a totally unknown value, or it might
 	// contain a mapping describing some type-specific refinements.
